@@ -6,6 +6,7 @@ import VlsModel.Gen.FnKvvKeys
 import VlsModel.Gen.FnKvvPass
 import VlsModel.Gen.FnNodePrune
 import VlsModel.Gen.FnNodeForget
+import VlsModel.Gen.FnKvvSuffix
 import VlsModel.Gen.FnNodeNewChannel
 import VlsModel.Gen.FnTrackerEntry
 import VlsModel.Gen.FnTrackerEntryRestore
@@ -875,5 +876,34 @@ example :
   intro node; rfl
 
 end NewChannel
+
+/-! ### `extract_key_suffix` (kvv.rs) translated (`Gen.FnKvvSuffix`, `fn_targets/KvvSuffix.b5.json`) -/
+section KvvSuffix
+open VlsModel.Gen.FnKvvSuffix
+
+/-- **C11_fn_kvv_extract_key_suffix**: the function by which `get_nodes` / `get_node_channels` turn a listed store key back into the
+    id it was written under (`C11_fn_kvv_make_key`: prefix + hex of the id): it answers exactly when the prefix ends with the
+    separator, the key starts with the prefix and the rest is hex — then with the decoded bytes — and in every other case it
+    ABORTS (a panic, never a refusal and never a skipped entry): a restart does not silently drop a stored channel or node. -/
+theorem C11_fn_kvv_extract_key_suffix (endsSep : String → Bool) (strip : String → String → VlsModel.Rs.M String)
+    (hexDecode : String → Option (List Nat)) (pre key : String)
+    (hstrip : ∀ k p, strip k p = .error .panic ∨ ∃ s, strip k p = .ok s) :
+    (∀ sfx b, endsSep pre = true → strip key pre = .ok sfx → hexDecode sfx = some b →
+      extract_key_suffix endsSep strip hexDecode pre key = .ok b) ∧
+    (∀ b, extract_key_suffix endsSep strip hexDecode pre key = .ok b →
+      endsSep pre = true ∧ ∃ sfx, strip key pre = .ok sfx ∧ hexDecode sfx = some b) ∧
+    ((∃ b, extract_key_suffix endsSep strip hexDecode pre key = .ok b) ∨
+      extract_key_suffix endsSep strip hexDecode pre key = .error .panic) := by
+  unfold extract_key_suffix
+  cases he : endsSep pre <;> rcases hstrip key pre with hs | ⟨s, hs⟩ <;>
+    simp [he, hs, VlsModel.Rs.assert, VlsModel.Rs.panic, VlsModel.Rs.unwrap, bind, Except.bind, pure, Except.pure]
+  cases hd : hexDecode s <;> simp [VlsModel.Rs.unwrap, VlsModel.Rs.panic, pure, Except.pure] <;>
+    (intro sfx b hsb; subst hsb; simp_all)
+
+/-- non-vacuity -/
+example : extract_key_suffix (fun _ => true) (fun _ _ => .ok "0a") (fun _ => some [10]) "channel/" "channel/0a" = .ok [10] ∧
+    extract_key_suffix (fun _ => true) (fun _ _ => .ok "zz") (fun _ => none) "channel/" "channel/zz" = .error .panic := ⟨rfl, rfl⟩
+
+end KvvSuffix
 
 end VlsModel.Props.C11Fn
